@@ -176,3 +176,6 @@ def run(ctx: Ctx, rep: Report, tier: str):
     from rules.common import pathless_event_takes_known_path
     rep.rule("C14.W13", "an event that carries no path is completed from the state: _fill_event_path copies the path the state knows for the event's id under no further condition", 1)
     section(rep, lambda: pathless_event_takes_known_path(ctx, rep, "C14.W13"))
+    from rules.common import idless_delete_lookup_is_live
+    rep.rule("C14.W14", "an id-less folder delete is matched to the live folder of that path (no stale look-up)", 1)
+    section(rep, lambda: idless_delete_lookup_is_live(ctx, rep, "C14.W14"))
